@@ -62,15 +62,20 @@ func genC20(r *Rng, e *Emitter, n int) {
 		if size >= 50 {
 			e.tally("size>=50")
 		}
-		in := append([]float64{}, flat...)
-		e.emit("C20.simplify", fmt.Sprintf("(%d %s %s)", stride, hexF(thr), sxCoord(flat)), guard(func() string {
-			idx := xy.SimplifyFlatCoords(in, thr, stride)
-			var flat2 []float64
-			for _, k := range idx {
-				flat2 = append(flat2, in[k*stride:(k+1)*stride]...)
+		in := []float64(slot(0, flat...)) // the caller's buffer is reused for every call
+		done := false
+		var idx, idx2 []int
+		e.emitR("C20.simplify", fmt.Sprintf("(%d %s %s)", stride, hexF(thr), sxCoord(flat)), func() string {
+			if !done {
+				idx = xy.SimplifyFlatCoords(in, thr, stride)
+				var flat2 []float64
+				for _, k := range idx {
+					flat2 = append(flat2, in[k*stride:(k+1)*stride]...)
+				}
+				idx2 = xy.SimplifyFlatCoords(flat2, thr, stride)
+				done = true
 			}
-			idx2 := xy.SimplifyFlatCoords(flat2, thr, stride)
 			return fmt.Sprintf("(%s %s)", sxInts(idx), sxInts(idx2))
-		}))
+		})
 	}
 }
